@@ -26,6 +26,23 @@ pub struct Case {
     pub files: Vec<(u8, Option<MiniFile>, MiniFile, bool)>,
     pub schedule: Vec<u8>,
     pub collide: bool,
+    /// after the concurrent phase one of the files (index mod number of files) is re-analysed once
+    /// more, alone, with unchanged text (255 = no follow-up): what the interleaving left behind in
+    /// the shared vectors must not make a later ordinary re-analysis hurt other files
+    #[serde(default = "no_follow_up")]
+    pub follow_up: u8,
+}
+
+fn no_follow_up() -> u8 {
+    255
+}
+
+fn follow_up_of(c: &Case) -> Option<Task> {
+    if c.follow_up == 255 || c.files.is_empty() {
+        return None;
+    }
+    let (p, _, v2, _) = &c.files[c.follow_up as usize % c.files.len()];
+    Some(Task { path: *p, text: v2.clone(), fresh: false })
 }
 
 pub fn case() -> impl Strategy<Value = Case> {
@@ -35,7 +52,7 @@ pub fn case() -> impl Strategy<Value = Case> {
         // context bounded: segments (thread, length)
         3 => vec((0u8..3, 1usize..120), 1..5).prop_map(|segs| segs.into_iter().flat_map(|(t, n)| std::iter::repeat(t).take(n)).collect::<Vec<u8>>()),
     ];
-    (vec(file, 2..=3), sched, any::<bool>()).prop_map(|(fs, schedule, collide)| Case { files: fs.into_iter().enumerate().map(|(i, (a, b, c))| (i as u8, a, b, c)).collect(), schedule, collide })
+    (vec(file, 2..=3), sched, any::<bool>(), prop_oneof![1 => Just(255u8), 1 => 0u8..3]).prop_map(|(fs, schedule, collide, follow_up)| Case { files: fs.into_iter().enumerate().map(|(i, (a, b, c))| (i as u8, a, b, c)).collect(), schedule, collide, follow_up })
 }
 
 fn setup_of(c: &Case) -> Vec<Task> {
@@ -58,6 +75,9 @@ pub fn sequential_outcomes(c: &Case, with_undeclared: bool) -> BTreeSet<String> 
         for i in perm {
             run_task(&db, &tasks[i]);
         }
+        if let Some(t) = follow_up_of(c) {
+            run_task(&db, &t);
+        }
         out.insert(raw_snapshot(&db, with_undeclared).to_string());
     }
     out
@@ -66,7 +86,16 @@ pub fn sequential_outcomes(c: &Case, with_undeclared: bool) -> BTreeSet<String> 
 pub fn check_case(c: &Case, info: &mut CaseInfo) -> Outcome {
     let tasks = tasks_of(c);
     let boxed: Vec<Box<dyn FnOnce(&FixtureDatabase) + Send>> = tasks.iter().cloned().map(|t| Box::new(move |db: &FixtureDatabase| run_task(db, &t)) as Box<dyn FnOnce(&FixtureDatabase) + Send>).collect();
-    let run = controlled_run(&setup_of(c), boxed, &c.schedule, c.collide, &|db| vec![raw_snapshot(db, false), raw_snapshot(db, true)]);
+    let follow = follow_up_of(c);
+    if follow.is_some() {
+        info.classes.push("follow-up re-analysis after the concurrent phase".into());
+    }
+    let run = controlled_run(&setup_of(c), boxed, &c.schedule, c.collide, &|db| {
+        if let Some(t) = &follow {
+            run_task(db, t);
+        }
+        vec![raw_snapshot(db, false), raw_snapshot(db, true)]
+    });
     if run.hung {
         return Outcome::Fail("controlled run did not finish within the watchdog (harness trouble or a real hang)".into());
     }
